@@ -45,7 +45,8 @@ def strategy(tier):
         'entry': st.sampled_from(ENTRIES),
         'newline': st.fixed_dictionaries({'ref': st.booleans(),
                                           'act': st.booleans()}),
-        'extra_pairs': st.lists(st.sampled_from(['same', 'same', 'diff']),
+        'extra_pairs': st.lists(st.sampled_from(['same', 'same', 'diff',
+                                                 'dup-actual']),
                                 max_size=2),
         'eol': st.sampled_from(EOLS),
         # a history on ONE comparison object: the main options, then each
@@ -112,7 +113,8 @@ def valid(case):
             and set(case['newline']) == {'ref', 'act'}
             and all(isinstance(v, bool) for v in case['newline'].values())
             and isinstance(case.get('extra_pairs'), list)
-            and all(x in ('same', 'diff') for x in case['extra_pairs']))
+            and all(x in ('same', 'diff', 'dup-actual')
+                    for x in case['extra_pairs']))
 
 
 def to_text(lines, final_newline, eol='\n'):
@@ -190,6 +192,10 @@ def run(case, ctx):
             if x == 'same':
                 pairs.append((['SAME LINE', 'TWO'], ['SAME LINE', 'TWO'],
                               True))
+            elif x == 'dup-actual':
+                # the main actual file again, against a reference that
+                # agrees with it: every listed pair is a check of its own
+                pairs.append((list(lines_act), 'MAIN-ACTUAL', True))
             else:
                 e2, _ = L.spec(['LEFT'], ['RIGHT'], o)
                 pairs.append((['LEFT'], ['RIGHT'], e2))
@@ -228,8 +234,13 @@ def run(case, ctx):
             ap = os.path.join(d, 'act%d.txt' % i)
             with open(rp, 'w', encoding='utf-8') as f:
                 f.write(to_text(r_, True))
-            with open(ap, 'w', encoding='utf-8') as f:
-                f.write(to_text(a_, True))
+            if a_ == 'MAIN-ACTUAL':
+                ap = act_path
+                with open(act_path, 'rb') as fa, open(rp, 'wb') as fr:
+                    fr.write(fa.read())     # byte for byte the same
+            else:
+                with open(ap, 'w', encoding='utf-8') as f:
+                    f.write(to_text(a_, True))
             aps.append(ap)
             rps.append(rp)
 
@@ -261,7 +272,7 @@ def run(case, ctx):
             for x in case['extra_pairs']:
                 if x == 'diff':
                     e = e and L.spec(['LEFT'], ['RIGHT'], o2)[0]
-        return e, inf
+        return e, inf        # ('same' and 'dup-actual' pairs agree)
 
     prelude = case.get('prelude') or []
     history = [('main', o)]
@@ -287,7 +298,8 @@ def run(case, ctx):
                                       {k: v for (k, v) in o2.items() if v}))
         line_pairs = [(lines_ref, lines_act)]
         if entry == 'assertTextFilesCorrect':
-            line_pairs += [(p[0], p[1]) for p in pairs[1:]]
+            line_pairs += [(p[0], p[0] if p[1] == 'MAIN-ACTUAL' else p[1])
+                           for p in pairs[1:]]
         if (not exotic and info.get('greedy_would_miss')
                 and greedy_class(dict(case, opts=o2), got_pass, line_pairs)):
             out.known_hit(F_GREEDY, detail)
